@@ -33,6 +33,9 @@ _EXC = {
     "OperationalError": sqlite3.OperationalError,
     "DatabaseError": sqlite3.DatabaseError,
     "ProgrammingError": sqlite3.ProgrammingError,
+    # a signal handler that ends the process in an orderly way (Ctrl-C, sys.exit() on SIGTERM): `finally` blocks run
+    "KeyboardInterrupt": KeyboardInterrupt,
+    "SystemExit": SystemExit,
 }
 
 
@@ -86,14 +89,23 @@ def _gate(kind, head, when):
     if plan is None:
         return
     e = len(st["events"])
-    if plan["event"] != e or plan["when"] != when:
+    if plan.get("sticky_kind"):
+        if kind != plan["sticky_kind"] or when != plan["when"]:
+            return
+    elif plan["event"] != e or plan["when"] != when:
         return
-    if plan.get("expect_kind") and plan["expect_kind"] != kind:
+    if plan.get("expect_kind") and plan["expect_kind"] != kind and not plan.get("sticky_kind"):
         # the operation took a different path than the golden run: report, do not fire
         st["fired"] = {"mismatch": [kind, head], "event": e}
         st["plan"] = None
         return
-    st["plan"] = None  # single fault per trial
+    if not plan.get("sticky"):
+        st["plan"] = None  # single fault per trial
+    else:
+        # a condition that persists (the database stays locked by somebody else): fires at this and at every later
+        # event of the same kind
+        plan["event"] = e + 0
+        plan["sticky_kind"] = kind
     st["fired"] = {"event": e, "when": when, "action": plan["action"], "kind": kind, "head": head}
     action = plan["action"]
     if action == "exit":
